@@ -3,6 +3,10 @@
 mod c01;
 mod c09;
 mod c11;
+mod c14;
+mod c15;
+mod c16;
+mod c17;
 mod hbfs;
 mod lanes;
 mod subject;
@@ -28,6 +32,10 @@ fn main() {
             "C03" => xbfs::replay(&v),
             "C09" => c09::replay(&v),
             "C11" => c11::replay(&v),
+            "C14" => c14::replay(&v),
+            "C15" => c15::replay(&v),
+            "C16" => if v["engine"].as_str() == Some("core/guts") { c16::replay_guts(&v) } else { hbfs::replay(&v) },
+            "C17" => if v["engine"].as_str() == Some("core/secrecy") { c17::replay_extra(&v) } else { hbfs::replay(&v) },
             _ => {
                 eprintln!("no replay for {}", args.prop);
                 std::process::exit(2);
@@ -42,6 +50,10 @@ fn main() {
         "C03" => ("core/xof_bfs", "model_checking"),
         "C09" => ("core/hazmat", "exploration"),
         "C11" => ("core/adapters", "fault_enumeration"),
+        "C14" => ("core/hash_value", "exploration"),
+        "C15" => ("core/refimpl", "exploration"),
+        "C16" => ("core/traits_bfs+guts", "model_checking"),
+        "C17" => ("core/secrecy", "model_checking"),
         _ => {
             eprintln!("vcore does not serve {}", args.prop);
             std::process::exit(2);
@@ -53,6 +65,46 @@ fn main() {
         "C03" => xbfs::run(&args, &mut rep),
         "C09" => c09::run(&args, &mut rep),
         "C11" => c11::run(&args, &mut rep),
+        "C14" => c14::run(&args, &mut rep),
+        "C15" => c15::run(&args, &mut rep),
+        "C16" => {
+            if !cfg!(feature = "traits") {
+                eprintln!("C16 needs the traits feature");
+                std::process::exit(2);
+            }
+            let t = args.thorough();
+            let mut fine = hbfs::cfg_fine("C16", t);
+            fine.name = "fine+reset, second lane driven only through the RustCrypto traits".into();
+            fine.with_reset = true;
+            fine.traits_lane = true;
+            fine.adapters = false;
+            let mut coarse = hbfs::cfg_coarse("C16", false);
+            coarse.name = "coarse+reset, traits lane".into();
+            coarse.with_reset = true;
+            coarse.traits_lane = true;
+            coarse.adapters = false;
+            coarse.max_dev = 1;
+            coarse.max_total = 80 * 1024;
+            hbfs::run(&args, &mut rep, vec![fine, coarse], subject::primary_modes(), &["A"]);
+            c16::run_guts(&args, &mut rep);
+            rep.rule = "two hashers advanced in lock-step from every state of the fine (+reset) exploration: one through inherent methods, one only through digest::{Update, Digest, Reset, KeyInit}; after every step identical complete state, and in every state FixedOutput/FixedOutputReset/ExtendableOutput(+Reset)/XofReader/Digest/Mac results equal the inherent ones and the resetting variants leave the state of a reset hasher; guts::ChunkState for every length 0..=1024 x splits x chunk counters (edge set) x is_root and guts::parent_cv on CV pairs, vs spec nodes; non-trivial = states reached by >= 2 updates, or distinct guts cases".into();
+        }
+        "C17" => {
+            let t = args.thorough();
+            let mut fine = hbfs::cfg_fine("C17", t);
+            fine.name = "fine, second lane with different secrets".into();
+            fine.secret_lane = true;
+            fine.adapters = false;
+            let mut coarse = hbfs::cfg_coarse("C17", false);
+            coarse.name = "coarse, second lane with different secrets".into();
+            coarse.secret_lane = true;
+            coarse.adapters = false;
+            coarse.max_dev = 1;
+            coarse.max_total = 80 * 1024;
+            hbfs::run(&args, &mut rep, vec![fine, coarse], subject::primary_modes(), &["A"]);
+            c17::run_extra(&args, &mut rep);
+            rep.rule = "non-interference: every state of the fine/coarse Hasher exploration is reached twice in lock-step with different key/context/input (same shape) and {:?}/{:#?} must be byte-identical and contain no secret word; the same for OutputReader over positions x reads and guts::ChunkState over every length; with zeroize, after zeroize() the raw memory of Hasher/OutputReader built with two different secrets must be identical (unstable padding excluded) and Hash all zero; non-trivial = distinct states / shapes".into();
+        }
         "C02" => {
             let t = args.thorough();
             let cfgs = vec![hbfs::cfg_fine("C02", t), hbfs::cfg_coarse("C02", t)];
